@@ -1106,13 +1106,17 @@ def _where_ite(cond, x, y):
             out[idx] = xv if bool(r) else yv
             continue
         p = r.p if r.kind in ("ge", "gt") else -r.p
-        truth = r.concrete(c.eval(r.p))
-        val = float(xv.const()) if truth else float(yv.const())
-        v = c.new_var(f"ite{len(c.vars)}", "aux", val, f"where({r.fmt(c.name_of)[:60]}, {xv}, {yv})")
-        c.assume("eq", (v - xv.p) * (v - yv.p), "ite: value is one of the two branches")
-        t = (v - yv.p) * Poly.const(1 / (xv.const() - yv.const()))
-        c.assume("ge", p * (t.scale(2) - Poly.const(1)), "ite: branch agrees with the sign of the condition")
-        out[idx] = Sym(v)
+        cache = c.caches.setdefault("ite", {})
+        ck = (r.kind, r.p.key(), xv.p.key(), yv.p.key())
+        if ck not in cache:
+            ev = c.eval_or_none(r.p)
+            val = None if ev is None else (float(xv.const()) if r.concrete(ev) else float(yv.const()))
+            v = c.new_var(f"ite{len(c.vars)}", "aux", val, f"where({r.fmt(c.name_of)[:60]}, {xv}, {yv})")
+            c.assume("eq", (v - xv.p) * (v - yv.p), "ite: value is one of the two branches")
+            t = (v - yv.p) * Poly.const(1 / (xv.const() - yv.const()))
+            c.assume("ge", p * (t.scale(2) - Poly.const(1)), "ite: branch agrees with the sign of the condition")
+            cache[ck] = v
+        out[idx] = Sym(cache[ck])
     return SymArray(out, F64)
 
 
